@@ -229,6 +229,26 @@ theorem parseTagsLoop_shift (text : Bytes) (base : Pos) (parts : List Bytes) (s 
     postingOpen (listEnv num cls) (shiftSt d st) = (id (postingOpen (listEnv num cls) st).1, shiftSt d (postingOpen (listEnv num cls) st).2) := by
   fun_cases postingOpen (listEnv num cls) st <;> (unfold postingOpen; (try simp +zetaDelta only [] at *) <;> (first | grind [Shift.date, Shift.rng, Shift.commodity, Shift.amount, Shift.cost, Shift.assertion, Shift.posting, Shift.tx, Shift.account, Shift.incl, Shift.dir, Shift.comment, Shift.item, Shift.dirResult, toRange, emptyCommodity, DirResult.ofDir] | (simp_all [Shift.date, Shift.rng, Shift.commodity, Shift.amount, Shift.cost, Shift.assertion, Shift.posting, Shift.tx, Shift.account, Shift.incl, Shift.dir, Shift.comment, Shift.item, Shift.dirResult, toRange, emptyCommodity, DirResult.ofDir]; done) | (simp_all <;> grind [Shift.date, Shift.rng, Shift.commodity, Shift.amount, Shift.cost, Shift.assertion, Shift.posting, Shift.tx, Shift.account, Shift.incl, Shift.dir, Shift.comment, Shift.item, Shift.dirResult, toRange, emptyCommodity, DirResult.ofDir])))
 
+@[simp, grind =] theorem lineComment_shift (st : PState (List Token)) :
+    lineComment (listEnv num cls) (shiftSt d st) = ((fun r => (r.1, r.2.map d.tag)) (lineComment (listEnv num cls) st).1, shiftSt d (lineComment (listEnv num cls) st).2) := by
+  fun_cases lineComment (listEnv num cls) st <;> (unfold lineComment; (try simp +zetaDelta only [] at *) <;> (first | grind [Shift.date, Shift.rng, Shift.commodity, Shift.amount, Shift.cost, Shift.assertion, Shift.posting, Shift.tx, Shift.account, Shift.incl, Shift.dir, Shift.comment, Shift.item, Shift.dirResult, toRange, emptyCommodity, DirResult.ofDir] | (simp_all [Shift.date, Shift.rng, Shift.commodity, Shift.amount, Shift.cost, Shift.assertion, Shift.posting, Shift.tx, Shift.account, Shift.incl, Shift.dir, Shift.comment, Shift.item, Shift.dirResult, toRange, emptyCommodity, DirResult.ofDir]; done) | (simp_all <;> grind [Shift.date, Shift.rng, Shift.commodity, Shift.amount, Shift.cost, Shift.assertion, Shift.posting, Shift.tx, Shift.account, Shift.incl, Shift.dir, Shift.comment, Shift.item, Shift.dirResult, toRange, emptyCommodity, DirResult.ofDir])))
+
+@[simp, grind =] theorem postingClosing_shift (cl : Option TokType) (st : PState (List Token)) :
+    postingClosing (listEnv num cls) cl (shiftSt d st) = shiftSt d (postingClosing (listEnv num cls) cl st) := by
+  unfold postingClosing; grind
+
+@[simp, grind =] theorem postingAmount_shift (st : PState (List Token)) :
+    postingAmount (listEnv num cls) (shiftSt d st) = (Option.map d.amount (postingAmount (listEnv num cls) st).1, shiftSt d (postingAmount (listEnv num cls) st).2) := by
+  fun_cases postingAmount (listEnv num cls) st <;> (unfold postingAmount; (try simp +zetaDelta only [] at *) <;> (first | grind [Shift.date, Shift.rng, Shift.commodity, Shift.amount, Shift.cost, Shift.assertion, Shift.posting, Shift.tx, Shift.account, Shift.incl, Shift.dir, Shift.comment, Shift.item, Shift.dirResult, toRange, emptyCommodity, DirResult.ofDir] | (simp_all [Shift.date, Shift.rng, Shift.commodity, Shift.amount, Shift.cost, Shift.assertion, Shift.posting, Shift.tx, Shift.account, Shift.incl, Shift.dir, Shift.comment, Shift.item, Shift.dirResult, toRange, emptyCommodity, DirResult.ofDir]; done) | (simp_all <;> grind [Shift.date, Shift.rng, Shift.commodity, Shift.amount, Shift.cost, Shift.assertion, Shift.posting, Shift.tx, Shift.account, Shift.incl, Shift.dir, Shift.comment, Shift.item, Shift.dirResult, toRange, emptyCommodity, DirResult.ofDir])))
+
+@[simp, grind =] theorem postingCost_shift (st : PState (List Token)) :
+    postingCost (listEnv num cls) (shiftSt d st) = (Option.map d.cost (postingCost (listEnv num cls) st).1, shiftSt d (postingCost (listEnv num cls) st).2) := by
+  fun_cases postingCost (listEnv num cls) st <;> (unfold postingCost; (try simp +zetaDelta only [] at *) <;> (first | grind [Shift.date, Shift.rng, Shift.commodity, Shift.amount, Shift.cost, Shift.assertion, Shift.posting, Shift.tx, Shift.account, Shift.incl, Shift.dir, Shift.comment, Shift.item, Shift.dirResult, toRange, emptyCommodity, DirResult.ofDir] | (simp_all [Shift.date, Shift.rng, Shift.commodity, Shift.amount, Shift.cost, Shift.assertion, Shift.posting, Shift.tx, Shift.account, Shift.incl, Shift.dir, Shift.comment, Shift.item, Shift.dirResult, toRange, emptyCommodity, DirResult.ofDir]; done) | (simp_all <;> grind [Shift.date, Shift.rng, Shift.commodity, Shift.amount, Shift.cost, Shift.assertion, Shift.posting, Shift.tx, Shift.account, Shift.incl, Shift.dir, Shift.comment, Shift.item, Shift.dirResult, toRange, emptyCommodity, DirResult.ofDir])))
+
+@[simp, grind =] theorem postingAssertion_shift (st : PState (List Token)) :
+    postingAssertion (listEnv num cls) (shiftSt d st) = (Option.map d.assertion (postingAssertion (listEnv num cls) st).1, shiftSt d (postingAssertion (listEnv num cls) st).2) := by
+  fun_cases postingAssertion (listEnv num cls) st <;> (unfold postingAssertion; (try simp +zetaDelta only [] at *) <;> (first | grind [Shift.date, Shift.rng, Shift.commodity, Shift.amount, Shift.cost, Shift.assertion, Shift.posting, Shift.tx, Shift.account, Shift.incl, Shift.dir, Shift.comment, Shift.item, Shift.dirResult, toRange, emptyCommodity, DirResult.ofDir] | (simp_all [Shift.date, Shift.rng, Shift.commodity, Shift.amount, Shift.cost, Shift.assertion, Shift.posting, Shift.tx, Shift.account, Shift.incl, Shift.dir, Shift.comment, Shift.item, Shift.dirResult, toRange, emptyCommodity, DirResult.ofDir]; done) | (simp_all <;> grind [Shift.date, Shift.rng, Shift.commodity, Shift.amount, Shift.cost, Shift.assertion, Shift.posting, Shift.tx, Shift.account, Shift.incl, Shift.dir, Shift.comment, Shift.item, Shift.dirResult, toRange, emptyCommodity, DirResult.ofDir])))
+
 @[simp, grind =] theorem postingTail_shift (cl : Option TokType) (st : PState (List Token)) :
     postingTail (listEnv num cls) cl (shiftSt d st) = ((fun r => (r.1.map d.amount, r.2.1.map d.cost, r.2.2.1.map d.assertion, r.2.2.2.1, r.2.2.2.2.map d.tag)) (postingTail (listEnv num cls) cl st).1, shiftSt d (postingTail (listEnv num cls) cl st).2) := by
   fun_cases postingTail (listEnv num cls) cl st <;> (unfold postingTail; (try simp +zetaDelta only [] at *) <;> (first | grind [Shift.date, Shift.rng, Shift.commodity, Shift.amount, Shift.cost, Shift.assertion, Shift.posting, Shift.tx, Shift.account, Shift.incl, Shift.dir, Shift.comment, Shift.item, Shift.dirResult, toRange, emptyCommodity, DirResult.ofDir] | (simp_all [Shift.date, Shift.rng, Shift.commodity, Shift.amount, Shift.cost, Shift.assertion, Shift.posting, Shift.tx, Shift.account, Shift.incl, Shift.dir, Shift.comment, Shift.item, Shift.dirResult, toRange, emptyCommodity, DirResult.ofDir]; done) | (simp_all <;> grind [Shift.date, Shift.rng, Shift.commodity, Shift.amount, Shift.cost, Shift.assertion, Shift.posting, Shift.tx, Shift.account, Shift.incl, Shift.dir, Shift.comment, Shift.item, Shift.dirResult, toRange, emptyCommodity, DirResult.ofDir])))
@@ -291,10 +311,6 @@ theorem parseTagsLoop_shift (text : Bytes) (base : Pos) (parts : List Bytes) (s 
 @[simp, grind =] theorem accountNameRest_shift (nm : Bytes) (st : PState (List Token)) :
     accountNameRest (listEnv num cls) nm (shiftSt d st) = (id (accountNameRest (listEnv num cls) nm st).1, shiftSt d (accountNameRest (listEnv num cls) nm st).2) := by
   fun_cases accountNameRest (listEnv num cls) nm st <;> (unfold accountNameRest; (try simp +zetaDelta only [] at *) <;> (first | grind [Shift.date, Shift.rng, Shift.commodity, Shift.amount, Shift.cost, Shift.assertion, Shift.posting, Shift.tx, Shift.account, Shift.incl, Shift.dir, Shift.comment, Shift.item, Shift.dirResult, toRange, emptyCommodity, DirResult.ofDir] | (simp_all [Shift.date, Shift.rng, Shift.commodity, Shift.amount, Shift.cost, Shift.assertion, Shift.posting, Shift.tx, Shift.account, Shift.incl, Shift.dir, Shift.comment, Shift.item, Shift.dirResult, toRange, emptyCommodity, DirResult.ofDir]; done) | (simp_all <;> grind [Shift.date, Shift.rng, Shift.commodity, Shift.amount, Shift.cost, Shift.assertion, Shift.posting, Shift.tx, Shift.account, Shift.incl, Shift.dir, Shift.comment, Shift.item, Shift.dirResult, toRange, emptyCommodity, DirResult.ofDir])))
-
-@[simp, grind =] theorem lineComment_shift (st : PState (List Token)) :
-    lineComment (listEnv num cls) (shiftSt d st) = ((fun r => (r.1, r.2.map d.tag)) (lineComment (listEnv num cls) st).1, shiftSt d (lineComment (listEnv num cls) st).2) := by
-  fun_cases lineComment (listEnv num cls) st <;> (unfold lineComment; (try simp +zetaDelta only [] at *) <;> (first | grind [Shift.date, Shift.rng, Shift.commodity, Shift.amount, Shift.cost, Shift.assertion, Shift.posting, Shift.tx, Shift.account, Shift.incl, Shift.dir, Shift.comment, Shift.item, Shift.dirResult, toRange, emptyCommodity, DirResult.ofDir] | (simp_all [Shift.date, Shift.rng, Shift.commodity, Shift.amount, Shift.cost, Shift.assertion, Shift.posting, Shift.tx, Shift.account, Shift.incl, Shift.dir, Shift.comment, Shift.item, Shift.dirResult, toRange, emptyCommodity, DirResult.ofDir]; done) | (simp_all <;> grind [Shift.date, Shift.rng, Shift.commodity, Shift.amount, Shift.cost, Shift.assertion, Shift.posting, Shift.tx, Shift.account, Shift.incl, Shift.dir, Shift.comment, Shift.item, Shift.dirResult, toRange, emptyCommodity, DirResult.ofDir])))
 
 @[simp, grind =] theorem parseAccountDirective_shift (sp : Pos) (st : PState (List Token)) :
     parseAccountDirective (listEnv num cls) (d.pos sp) (shiftSt d st) =
